@@ -61,7 +61,7 @@ def describe(v):
     c = call_of(v)
     if c is not None:
         nm = c[2][0].split('::')[-1]
-        if nm in ('null', 'new') and len(c[2]) == 2:
+        if nm in ('null', 'null_mut', 'new') and len(c[2]) == 2:
             return ('empty', nm)
         if nm in ('as_ptr', 'to_owned', 'to_string', 'to_str', 'expect', 'unwrap', 'into_owned', 'to_string_lossy'):
             # conversions of the detail string: follow the first argument
